@@ -188,7 +188,7 @@ func runC01(r *chk.Run) {
 	if v := intEnv("VERIF_C01_DEPTH"); v > 0 {
 		depth = v
 	}
-	alpha := []string{UTxXID, UDDL, UTx2, UTxCommit, UAutoRows, UStmtIn, UStmtOut, USet, URotate, UTxDDL}
+	alpha := []string{UTxXID, UDDL, UTx2, UTxCommit, UAutoRows, UStmtIn, UStmtOut, USet, URotate, UTxDDL, UTxSplit, UTxFK, UTxFlagged}
 	hr := newHistRunner(r, "C01", checkGrouping)
 	cfgs := Cfgs()
 	// (1) every NULL / absent pattern of every image, every kind, every configuration
